@@ -116,6 +116,25 @@ def make_case(rng, kind, plan, nfollow=None, follow=None, nb=None, which=0, tag=
     return {"cluster": spec, "ops": ops, "meta": {"kind": kind, "first": first, "tag": tag, "plan": plan}}
 
 
+def make_refused_case(rng):
+    """a call that is refused while its request is being encoded (a topic / group name longer than a protocol string can hold): nothing is
+    written; the calls that follow on the same connection must each hand over exactly their own request and read their own reply"""
+    nb = rng.choice([1, 1, 2])
+    leader = rng.randint(1, nb)
+    spec = cluster_spec(nb, leader, leader)
+    ops = boot_ops(spec) + [T("set_group_offset_storage", [1])]
+    if rng.random() < 0.6:
+        ops.append(call("offsets", 1))
+    first = len(ops)
+    long_name = b"x" * rng.choice([32768, 40000])
+    ops.append({"op": rng.choice([T("load_metadata", [[long_name]]), T("load_metadata", [[T1, long_name]]),
+                                  T("fetch_group_topic_offset", [long_name, T1])])})
+    for _ in range(rng.randint(2, 3)):
+        fk = rng.choice(["offsets", "produce1", "produce0", "metadata", "metadata"])
+        ops.append({"op": call(fk, rng.randint(0, 1) if fk != "metadata" else rng.randint(0, 1))})
+    return {"cluster": spec, "ops": ops, "meta": {"kind": "refused", "first": first, "tag": "refused_encode", "plan": None}}
+
+
 T2 = b"t2"
 
 
@@ -222,6 +241,8 @@ def gen(rng, tier):
     for kind in KINDS:
         for h in (1, 2):
             cases.append(make_case(rng, kind, {"connect_fail": [host(h)]}, nb=2, tag="connect_fail"))
+    for _ in range(24 if tier == "quick" else 300):
+        cases.append(make_refused_case(rng))
     return cases
 
 
